@@ -3,11 +3,13 @@
 let name_of = function
   | "prediction" -> NPrediction | "state" -> NState | "exogenous" -> NExogenous
   | "correction" -> NCorrection | "all" -> NAll | _ -> NOther
-let kind_of = function "kf" -> KF | "ukf" -> UKF | "boot" | "boot2" -> Boot | "gpf" -> GPF | s -> failwith ("kind " ^ s)
+let kind_of = function "kf" -> KF | "ukf" | "ukfg" -> UKF | "boot" | "boot2" -> Boot | "gpf" -> GPF | s -> failwith ("kind " ^ s)
 let op_of (tok : string) : op =
   match tok with
-  | "predict" -> OpPredict
-  | "correct" -> OpCorrect
+  | "predict" -> OpPredict false
+  | "correct" -> OpCorrect false
+  | "predict!" -> OpPredict true      (* output object of another shape *)
+  | "correct!" -> OpCorrect true
   | _ -> (
       match String.rindex_opt tok ':' with
       | Some i -> OpSkip (name_of (String.sub tok 0 i), String.sub tok (i + 1) (String.length tok - i - 1) = "on")
@@ -17,7 +19,7 @@ let flags_str (f : flags) =
   Printf.sprintf "P=%s,S=%s,E=%s" (b01 f.f_pred) (b01 f.f_state) (match f.f_exo with Some e -> b01 e | None -> "-")
 let mode_str = function MCopy -> "copy" | MFull -> "full" | MStateOnly -> "stateonly" | MExoOnly -> "exoonly" | MNothing -> "nothing"
 let step_str = function
-  | OInput -> "identity" | OOld -> "untouched" | ORan (_, m) -> mode_str m | OCorrected _ -> "run"
+  | OInput -> "identity" | OOld | OOldOther -> "untouched" | OSliced -> "sliced" | ORan (_, m) -> mode_str m | OCorrected _ -> "run"
 let obs_str = function
   | ObsSkip (r, f) -> Printf.sprintf "r=%s,%s" (match r with Ok true -> "true" | Ok false -> "false" | Throws -> "throw") (flags_str f)
   | ObsStep o -> step_str o
